@@ -46,7 +46,7 @@ def gen(seed):
             lab = sorted(lab[-1] - p for p in lab)
         off = rnd.choice((0, 0, rnd.randint(1, 5000)))
         lab = [p + off for p in lab]
-        qid = 10 + qi
+        qid = 10 + qi if qi else 1        # the two CMAP files have independent id spaces: one query carries the reference's own id
         queries.append((qid, lab[-1] + rnd.choice((1, rnd.randint(2, 3000))), lab))
         # true pairs in ascending reference order
         truth[qid] = dict(reverse=rev, pairs=[(a + i + 1, (k - i) if rev else (i + 1)) for i in range(k)])
